@@ -298,6 +298,14 @@ func spec_src(t *template) []rune { return []rune(strings.TrimLeft(t.format, "\n
 //@   lit 1 maypanic
 //@   note frame, proved on the returned iterator literal too: rendering an identifier stores nothing into ANY snippet value (no memo of a resolved name: a snippet value rendered into two files consults each file's own import table, C05) and runs no user code in map order. References given as text go through ParseRef (one split point for the whole naming system, C15/C03); WHAT the namer answers for the parsed reference is the contract of rawNamer.Name. An unsupported operand panics (stated, not excluded).
 
+//@ func value.Frag
+//@   props C05 C09 C04 C01
+//@   requires v != nil
+//@   assigns *
+//@   effects
+//@   preserves pkg/gengo/snippet. pkg/gengo/internal. except pkg/gengo/internal.ValueLitOpt.SubValue, pkg/gengo/internal.ValueLitOpt.OnInterface, pkg/gengo/internal.ValueLitOpt.OnNamedType
+//@   lit 1 ordered
+
 //@ func ID
 //@   props C09 C11
 //@   pure
